@@ -11,14 +11,16 @@ row positions — the same complete sequence of drift decisions.
 """
 import itertools
 import math
+import time
+from collections import Counter
 
 import numpy as np
 
 from menelaus.data_drift import HDDDM, CDBD, KdqTreeBatch, NNDVI
 from menelaus.partitioners import NNSpacePartitioner
 
-from mc import rng
-from mc.explorer import System, Violation, dev_split
+from mc import rng, procstate
+from mc.explorer import System, Violation, dev_split, artefact, jsonable
 from mc.numeric import close
 
 PROPERTY = "C18"
@@ -185,10 +187,14 @@ class Perm(System):
             # the NN-DVI distance between exactly these two batches (pure function of the partitioner)
             da = self._nnps(np.asarray(a.reference_batch), np.asarray(xa), cfg["params"]["k_nn"])
             db = self._nnps(np.asarray(b.reference_batch), np.asarray(xb), cfg["params"]["k_nn"])
-        rng.seed_step(*seed)
-        a.update(xa)
-        rng.seed_step(*seed)
-        b.update(xb)
+        try:
+            rng.seed_step(*seed)
+            a.update(xa)
+            rng.seed_step(*seed)
+            b.update(xb)
+        except Exception as e:  # the batches are legal input (the same rows in another order): no update may be refused
+            raise Violation("exception", "%s: update %d (event %r) of the original / permuted pair raised %s: %s" % (self.name, pos, ev, type(e).__name__, e),
+                            expected="no exception", observed=repr(e), sig="perm-exception:%s" % self.name)
         if self.kind != "NNDVI":
             da = self._distance(a, state, "a", sym, None)
             db = self._distance(b, state, "b", sym, pi)
@@ -265,6 +271,237 @@ for _n in sorted(set(HUGE_SIZES["quick"]) | set(HUGE_SIZES["thorough"])):
     SYSTEMS["HDDDM|huge%d" % _n] = Perm("HDDDM|huge%d" % _n, HDDDM, _LazyMenu(_n, 2), kind="HDDDM")
     SYSTEMS["CDBD|huge%d" % _n] = Perm("CDBD|huge%d" % _n, CDBD, _LazyMenu(_n, 1), kind="CDBD")
     SYSTEMS["KdqTreeBatch|huge%d" % _n] = Perm("KdqTreeBatch|huge%d" % _n, KdqTreeBatch, _LazyMenu(_n, 2), kind="KdqTreeBatch")
+
+# ---------------------------------------------------------------------------
+# LONG histories (HDDDM / CDBD): the adaptive threshold (mean + scaled deviation of the epoch's epsilons) needs several
+# batches per epoch before it differs from its start-up values, and several epochs (drift -> new reference -> reset())
+# before anything a reset leaves behind can matter; 3-4 batches show none of it.  Deterministic lattice batches pushed
+# through the normal quantile function, three level profiles of 14-16 batches (each gives >= 2 drifts for every
+# configuration with detect_batch=3 on the unchanged tree, independent of VERIF_SEED: counted per task as long_history_with_two_drifts), and in deviation mode the history with ONE
+# position (reference or any test batch) whose rows are permuted: reversal, rotation by one, rotation by a half, the
+# transposition of the first and the last row.  Each such history is ONE execution, started in a pristine process state
+# (mc.procstate.reset()): the detector fed the original batches and the detector fed the permuted ones are updated batch
+# by batch, alternately, under identical seeds (as in the short families), and the original one is additionally compared,
+# bit for bit, with the same history run alone in a pristine process state.
+# ---------------------------------------------------------------------------
+LONG_ROWS = 60
+LONG_PROFILES = {
+    "two-shifts": [0, 0, 0, 0, 0, 0.9, 0.9, 0.9, 0.9, 0, 0, 0, 0.5, 0.5, 0.5, 0.5],
+    "shift-and-back": [0, 0, 0, 0, 1.5, 1.5, 1.5, 1.5, 1.5, 0, 0, 0, 0, 0],
+    "blip-then-steps": [0, 0, 0, 0.3, 0, 0, 2, 2, 2, 2, 0.5, 0.5, 0.5, 0.5, 0.5, 2],
+}
+LONG_PERMS = ["reversal", "rotate-1", "rotate-half", "swap-ends"]
+# (class, params, decisions compared?)
+LONG_CFGS = [
+    (cls, dict({"detect_batch": db, "statistic": stat, "significance": sig}, **({"subsets": 3} if db == 2 else {})), db == 3)
+    for cls in ("HDDDM", "CDBD")
+    for db in (3, 2)
+    for stat, sig in (("tstat", 0.05), ("stdev", 1.0))
+]
+# the siblings: the tree and the nearest-neighbour detector on the same long histories (decisions compared under the fixed
+# seeds, as in the short families); they cost ~20x an HDDDM update, so two profiles and two permutations per position
+LONG_CFGS += [
+    ("KdqTreeBatch", {"alpha": 0.05, "bootstrap_samples": 10, "count_ubound": 5}, True),
+    ("NNDVI", {"k_nn": 3, "sampling_times": 10, "alpha": 0.05}, True),
+]
+LONG_SLOW = {"profiles": ["two-shifts", "blip-then-steps"], "perms": ["reversal", "rotate-half"]}
+_LONG_CLS = {"HDDDM": HDDDM, "CDBD": CDBD, "KdqTreeBatch": KdqTreeBatch, "NNDVI": NNDVI}
+
+
+def long_batch(k, level, d):
+    """batch k (k = -1: the reference) of LONG_ROWS rows and d features at the given level; no randomness"""
+    from scipy.stats import norm
+
+    i = np.arange(LONG_ROWS)
+    cols = []
+    for f in range(d):
+        u = (((i + 1) * (7919 + 2 * f) + (k + 1) * (104729 + 6 * f) + 31 * f) % 10007 + 0.5) / 10007.0
+        cols.append(norm.ppf(u) + level)
+    return np.column_stack(cols)
+
+
+def _long_perm(name, n):
+    ident = np.arange(n)
+    if name == "reversal":
+        return ident[::-1].copy()
+    if name == "rotate-1":
+        return np.roll(ident, -1)
+    if name == "rotate-half":
+        return np.roll(ident, -(n // 2))
+    q = ident.copy()
+    q[0], q[-1] = q[-1], q[0]
+    return q
+
+
+def _long_obs(det, dist=None):
+    if dist is None:
+        dist = float(det.current_distance) if isinstance(det, (HDDDM, CDBD)) else kdq_divergence(det)
+    return (det.drift_state, int(det.total_batches), int(det.batches_since_reset), dist)
+
+
+def _long_nnps(det, x, params):
+    """NN-DVI: the distance between the detector's current reference and the batch it is about to see"""
+    if not isinstance(det, NNDVI):
+        return None
+    return Perm._nnps(np.asarray(det.reference_batch), np.asarray(x), params["k_nn"])
+
+
+def _long_solo(ci, profile, seed):
+    """the original history, one detector alone in a pristine process state: observables after every update"""
+    cls, params, _ = LONG_CFGS[ci]
+    d = 1 if cls == "CDBD" else 2
+    procstate.reset()
+    det = _LONG_CLS[cls](**params)
+    rng.seed_step(seed, "long", ci, profile, 0)
+    det.set_reference(long_batch(-1, 0, d))
+    out = []
+    for k, level in enumerate(LONG_PROFILES[profile]):
+        x = long_batch(k, level, d)
+        dist = _long_nnps(det, x, params)
+        rng.seed_step(seed, "long", ci, profile, k + 1)
+        det.update(x)
+        out.append(_long_obs(det, dist))
+    return out
+
+
+def long_exec(ci, profile, dev, seed, stats, solo=None):
+    """ONE execution: pristine process state, the pair (original rows / rows permuted at position dev[0] by dev[1]; dev None:
+    the same rows) fed alternately.  Raises Violation."""
+    cls, params, decisions = LONG_CFGS[ci]
+    d = 1 if cls == "CDBD" else 2
+    if solo is None:
+        solo = _long_solo(ci, profile, seed)
+    procstate.reset()
+    a, b = _LONG_CLS[cls](**params), _LONG_CLS[cls](**params)
+    levels = LONG_PROFILES[profile]
+    where = "%s %r profile %s, rows permuted at %r" % (cls, params, profile, dev)
+
+    def rows(pos, x):
+        if dev is not None and dev[0] == pos:
+            return x[_long_perm(dev[1], len(x))].copy()
+        return x.copy()
+
+    try:
+        x = long_batch(-1, 0, d)
+        rng.seed_step(seed, "long", ci, profile, 0)
+        a.set_reference(x.copy())
+        rng.seed_step(seed, "long", ci, profile, 0)
+        b.set_reference(rows(0, x))
+    except Exception as e:
+        raise Violation("exception", "%s: set_reference raised %s: %s" % (where, type(e).__name__, e), expected="no exception", observed=repr(e), sig="perm-exception:%s|long" % cls)
+    drifts = 0
+    for k, level in enumerate(levels):
+        pos = k + 1
+        x = long_batch(k, level, d)
+        xb = rows(pos, x)
+        try:
+            da, db = _long_nnps(a, x, params), _long_nnps(b, xb, params)
+            rng.seed_step(seed, "long", ci, profile, pos)
+            a.update(x.copy())
+            rng.seed_step(seed, "long", ci, profile, pos)
+            b.update(xb)
+            oa, ob = _long_obs(a, da), _long_obs(b, db)
+        except Exception as e:
+            raise Violation("exception", "%s: update %d raised %s: %s" % (where, pos, type(e).__name__, e), expected="no exception", observed=repr(e), sig="perm-exception:%s|long" % cls)
+        stats["transitions"] += 1
+        # the detector fed the original rows is a deterministic function of (seed, batches): another live object must not show
+        if oa != solo[k]:
+            raise Violation("solo", "%s: after update %d the detector fed the ORIGINAL rows reports %r next to its twin, %r when run alone" % (where, pos, oa, solo[k]),
+                            expected=solo[k], observed=oa, sig="perm-solo:%s|long" % cls)
+        stats["long_solo_comparisons"] += 1
+        if not close(oa[3], ob[3], rel=1e-12, abs_=1e-12):
+            raise Violation("divergence", "%s: divergence of update %d changed from %r to %r" % (where, pos, oa[3], ob[3]), expected=oa[3], observed=ob[3], sig="perm-divergence:%s|long" % cls)
+        ka = {int(q): float(v) for q, v in a.distances.items()} if cls in ("HDDDM", "CDBD") else {}
+        kb = {int(q): float(v) for q, v in b.distances.items()} if cls in ("HDDDM", "CDBD") else {}
+        if not close(ka, kb, rel=1e-12, abs_=1e-12):
+            raise Violation("divergence", "%s: recorded distances differ after update %d: %r vs %r" % (where, pos, ka, kb), expected=ka, observed=kb, sig="perm-divergence:%s|long" % cls)
+        if oa[3] > 0:
+            stats["nonzero_divergences"] += 1
+        if not decisions:
+            if oa[:3] != ob[:3]:
+                # detect_batch=2 bootstraps the first threshold of every epoch from positional subsets: allowed to differ,
+                # after which the two runs hold different references and are no longer comparable
+                stats["decisions_differ_where_the_property_allows_it"] += 1
+                break
+        else:
+            if oa[:3] != ob[:3]:
+                raise Violation("decision", "%s: drift decision / counters of update %d changed from %r to %r" % (where, pos, oa[:3], ob[:3]), expected=oa[:3], observed=ob[:3], sig="perm-decision:%s|long" % cls)
+            if dev is not None and dev[0] <= pos:
+                stats["decisions_compared_after_permutation"] += 1
+                stats["long_decisions_compared_after_permutation"] += 1
+        if oa[0] == "drift":
+            drifts += 1
+            stats["drifts"] += 1
+            if dev is not None and dev[0] <= pos:
+                stats["drift_after_permutation"] += 1
+                if drifts >= 2:
+                    stats["long_second_epoch_drift_after_permutation"] += 1
+    return drifts
+
+
+class LongPerm(System):
+    """replay vehicle: one event = one complete execution of the family 'long'"""
+    name = "LongPerm"
+
+    def init(self, cfg):
+        return {}
+
+    def alphabet(self, cfg, state, pos):
+        return []
+
+    def step(self, cfg, state, ev, pos, ctx):
+        ci, profile, dev = ev
+        return {"drifts": long_exec(ci, profile, dev, ctx.seed, Counter())}
+
+
+SYSTEMS["LongPerm"] = LongPerm()
+
+
+def long_task(task, seed):
+    t0 = time.time()
+    ci, profile = task["ci"], task["profile"]
+    stats = Counter()
+    violations, samples = [], []
+    cfg = {"id": 500 + ci, "detector": LONG_CFGS[ci][0], "params": LONG_CFGS[ci][1]}
+    solo = _long_solo(ci, profile, seed)
+    if sum(o[0] == "drift" for o in solo) >= 2:
+        stats["long_history_with_two_drifts"] += 1
+    devs = ([None] if task.get("nodev", True) else []) + [[pos, nm] for pos in range(len(LONG_PROFILES[profile]) + 1) for nm in task.get("perms", LONG_PERMS)]
+    for dev in devs:
+        stats["executions"] += 1
+        stats["states"] += 1
+        if dev is not None:
+            stats["nontrivial_executions"] += 1
+            stats["permuted_reference" if dev[0] == 0 else "permuted_test_batch"] += 1
+            stats["long_histories_permuted"] += 1
+            if LONG_CFGS[ci][0] in ("KdqTreeBatch", "NNDVI"):
+                stats["long_histories_permuted_kdq_nndvi"] += 1
+        try:
+            long_exec(ci, profile, dev, seed, stats, solo)
+        except Violation as v:
+            violations.append(artefact(PROPERTY, SYSTEMS["LongPerm"], cfg, seed, [[ci, profile, dev]], v))
+            if task.get("first"):
+                break
+        if dev is not None and not samples:
+            samples.append({"system": "LongPerm", "cfg": jsonable(cfg), "events": [[ci, profile, dev]], "nontrivial_events": 1})
+    procstate.reset()
+    return {"stats": dict(stats), "violations": violations, "samples": samples, "wall": time.time() - t0}
+
+
+def _long_tasks(tier):
+    out = []
+    for ci, (cls, _, _) in enumerate(LONG_CFGS):
+        if cls in ("HDDDM", "CDBD"):
+            for profile in LONG_PROFILES:
+                out.append({"fn": "long_task", "system": "LongPerm", "ci": ci, "profile": profile, "label": "LongPerm|%s|%d|%s" % (cls, ci, profile), "cost": 6})
+            continue
+        slow = LONG_SLOW if tier == "quick" else {"profiles": list(LONG_PROFILES), "perms": LONG_PERMS}
+        for profile in slow["profiles"]:
+            for pi, nm in enumerate(slow["perms"]):
+                out.append({"fn": "long_task", "system": "LongPerm", "ci": ci, "profile": profile, "perms": [nm], "nodev": pi == 0,
+                            "label": "LongPerm|%s|%d|%s|%s" % (cls, ci, profile, nm), "cost": 25})
+    return out
+
 
 HUGE_CFGS = [
     ("HDDDM", {"detect_batch": 3, "statistic": "stdev", "significance": 0.5}, True),
@@ -387,10 +624,17 @@ def tasks(tier, seed):
                         "validate_every": 5,
                     }
                 )
+    out += _long_tasks(tier)
     return out
 
 
 REQUIRED = [
+    "long_histories_permuted",
+    "long_histories_permuted_kdq_nndvi",
+    "long_history_with_two_drifts",
+    "long_decisions_compared_after_permutation",
+    "long_second_epoch_drift_after_permutation",
+    "long_solo_comparisons",
     "huge_batches_permuted",
     "dataframe_batches",
     "permuted_reference",
@@ -406,14 +650,25 @@ def describe(tier):
     return {
         "rule": "set_reference + up to 3 updates from a menu of small batches; at one position (two for batches of <= 4 "
         "rows) the batch is replaced by every one of its non-identity row permutations; every such history is run on "
-        "an original/permuted pair of real detectors under identical seeds; non-trivial = history containing a permuted batch",
+        "an original/permuted pair of real detectors under identical seeds; non-trivial = history containing a permuted batch; "
+        "plus (HDDDM / CDBD, detect_batch 3 and 2, tstat and stdev; one KdqTreeBatch and one NNDVI configuration) three deterministic histories of 14-16 batches of 60 rows with several "
+        "drifts / epochs, one permuted position each; an exception raised by an update of legal batches is a violation",
         "bounds": {"batch_rows": [len(m) for m in M2], "permutations_per_batch": {str(n): len(PERMS[n]) for n in PERMS},
                    "batches_over_5_rows": "every transposition, every rotation and the reversal (n! is out of reach)",
                    "huge_batches": {"rows": list(HUGE_SIZES[tier]), "permutations": HUGE_PERM_NAMES, "histories": HUGE_HISTORIES[: 2 if tier == "quick" else 4],
                                     "configs": [{"detector": c[0], "params": c[1]} for c in HUGE_CFGS],
                                     "note": "quick: KdqTreeBatch on the 70001-row menus only; one permuted position per history; HDDDM, CDBD, KdqTreeBatch only (NN-DVI is quadratic in the rows)"},
+                   "long_histories": {"rows": LONG_ROWS, "profiles (levels of the test batches)": LONG_PROFILES, "permutations": LONG_PERMS,
+                                      "KdqTreeBatch / NNDVI": LONG_SLOW if tier == "quick" else "all profiles, all permutations",
+                                      "configs": [{"detector": c[0], "params": c[1], "decisions_compared": c[2]} for c in LONG_CFGS],
+                                      "note": "deviation mode, every ONE position (reference or test batch) permuted by each listed permutation; each history is one "
+                                      "execution started in a pristine process state (mc.procstate.reset()), original / permuted pair fed alternately under identical "
+                                      "seeds; the original one is also compared bit for bit with the same history run alone; native family (fn task), not explored "
+                                      "by the derived Pair: / Faulty: families"},
                    "configs": [{"detector": c[0], "params": c[1], "decisions_compared": c[2]} for c in CFGS]},
         "explanation": "differential oracle; HDM distances and NNPS distance compared to 1e-12, kdq divergence recomputed from "
         "the public node counts; full decision traces compared for HDDDM/CDBD detect_batch=3, KdqTreeBatch and NNDVI",
-        "assumptions": ["HDDDM/CDBD with detect_batch=2 bootstrap by row position, so only their distances are compared (as the property states)"],
+        "assumptions": ["HDDDM/CDBD with detect_batch=2 bootstrap by row position, so only their distances are compared (as the property states)",
+                        "long histories: the detector fed the original rows must behave exactly as the same detector run alone (all four are "
+                        "deterministic given numpy's global seed, which the harness sets before every call)"],
     }
